@@ -394,6 +394,22 @@ MUTANTS = [
            lambda f, t: replace_expr(f, lambda e: isinstance(e, ast.Tuple) and u(e) == "('GET', 'POST', 'OPTIONS')", "('GET', 'POST', 'OPTIONS', 'PUT')")),
     Mutant("C20", "key-compared-as-text", "C20-R4", GW, "process_pyro_request",
            lambda f, t: delete_stmt(f, lambda s: isinstance(s, ast.Assign) and u(s) == "gateway_key = gateway_key.encode('utf-8')")),
+    # ---- additions for the agreement rules
+    Mutant("C01", "tuples-not-recreated", "C01-R5", SER, "SerializerBase.recreate_classes",
+           lambda f, t: delete_stmt(f, lambda s: isinstance(s, ast.If) and u(s.test) == "t is tuple")),
+    Mutant("C07", "traceback-attribute-renamed-on-server", "C07-R3", S, "Daemon._sendExceptionResponse",
+           lambda f, t: [setattr(a, "attr", "_pyroTB") for a in ast.walk(f) if isinstance(a, ast.Attribute) and a.attr == "_pyroTraceback"]),
+    Mutant("C10", "client-calls-renamed-stream-method", "C10-R6", C, "_StreamResultIterator.__next__",
+           lambda f, t: replace_expr(f, lambda e: isinstance(e, ast.Constant) and e.value == "get_next_stream_item", "'next_stream_item'")),
+    Mutant("C11", "batch-triple-order-swapped", "C11-R5", C, "_BatchedRemoteMethod.__call__",
+           lambda f, t: [c.args[0].elts.__setitem__(slice(1, 3), [c.args[0].elts[2], c.args[0].elts[1]]) for c in ast.walk(f) if isinstance(c, ast.Call) and
+                         isinstance(c.func, ast.Attribute) and c.func.attr == "append"]),
+    Mutant("C14", "sql-getitem-returns-none-for-missing", "C14-R7", NSV, "SqlStorage.__getitem__",
+           lambda f, t: replace_stmt(f, lambda s: isinstance(s, ast.Raise) and "KeyError" in u(s), stmts("return None"))),
+    Mutant("C17", "connection-recv-caps-size", "C17-R5", SU, "SocketConnection.recv",
+           lambda f, t: replace_expr(f, lambda e: u(e) == "receive_data(self.sock, size)", "receive_data(self.sock, min(size, 65536))")),
+    Mutant("C19", "proxy-hash-by-identity", "C19-R1", C, "Proxy.__hash__",
+           lambda f, t: replace_expr(f, lambda e: u(e) == "hash(self._pyroUri)", "hash(id(self))")),
 ]
 
 
